@@ -17,6 +17,7 @@ type Obligation struct {
 	Detail  string
 	Tags    []string
 	NFacts  int
+	RetNil  *Term   // for ensures obligations: "the single pointer/interface result is nil" (used to replay a model)
 	Facts   []*Term // the facts in scope when the obligation was generated (x.facts[:NFacts] of its epoch)
 	Epoch   int
 	PC      *Term
@@ -612,6 +613,7 @@ func (x *Exec) runLoopUnrolled(fr *Frame, L *Loop, ins []edge, spec *LoopSpec) [
 	if spec != nil && spec.Unroll && len(spec.Invariants) > 0 && fr.depth == 0 && !x.quiet {
 		snap = x.snapSeen()
 	}
+	var exitFacts []*Term
 	for iter := 0; ; iter++ {
 		if iter > 40 {
 			panic(fmt.Sprintf("loop %d of %s: unrolling did not terminate (needs an invariant)", L.Ordinal, funcKey(fr.fn)))
@@ -624,13 +626,69 @@ func (x *Exec) runLoopUnrolled(fr *Frame, L *Loop, ins []edge, spec *LoopSpec) [
 			x.cutIteration(fr, L, s, spec, iter, snap)
 		}
 		ex, backs := x.runRegionFromHeader(fr, L, s)
+		if snap != nil {
+			// states that leave through a break outlive the facts of their iteration: cut them here as well
+			for _, e := range ex {
+				if e.from != L.Header && e.st != nil && !isFalse(e.st.pc) {
+					exitFacts = append(exitFacts, x.cutExit(fr, L, e.st, spec, iter, snap)...)
+				}
+			}
+		}
 		exits = append(exits, ex...)
 		if len(backs) == 0 {
 			break
 		}
 		cur = backs
 	}
+	for _, f := range exitFacts {
+		x.addFactRaw(f)
+	}
 	return exits
+}
+
+// cutExit: an early exit (break) from iteration iter of an unrolled loop with cuts. The loop invariant, read with the
+// range index standing at the element just processed, is proved in the iteration's own fact scope; the state is then
+// abstracted like at an iteration head and the invariant facts for it are returned (they are asserted again after the
+// loop, when the iteration's facts are gone).
+func (x *Exec) cutExit(fr *Frame, L *Loop, st *State, spec *LoopSpec, iter int, snap *seenSnap) []*Term {
+	lname := fmt.Sprintf("loop%d", L.Ordinal)
+	idxName := fmt.Sprintf("idx%d", L.Ordinal)
+	for _, in := range L.Header.Instrs {
+		if p, ok := in.(*ssa.Phi); ok && p.Comment == "rangeindex" {
+			st.names[idxName] = x.GoInt(int64(iter))
+			x.nameTypes[idxName] = p.Type()
+		}
+	}
+	savedPC := x.curPC
+	x.curPC = st.pc
+	defer func() { x.curPC = savedPC }()
+	for _, c := range spec.Invariants {
+		env := x.contractEnv(fr, st, fr.entry, nil)
+		g := x.evalBool(env, c.Expr)
+		x.oblige(fr, st, "inv-exit", fmt.Sprintf("%s:%d@%d", lname, c.Ord, iter), c.Tags, g, c.Text)
+	}
+	if !x.topEffects() {
+		return nil
+	}
+	for _, n := range x.effectHeaps(st) {
+		srt := x.heapSorts[n]
+		if srt == "" {
+			continue
+		}
+		x.loopMix(fr, st, n, srt, fmt.Sprintf("%s.x%d", lname, iter))
+	}
+	var out []*Term
+	nf := len(x.facts)
+	st.clk = x.advanceClk(st)
+	if snap.clk != nil {
+		x.addFactRaw(x.tt.Gt(st.clk, snap.clk))
+	}
+	for _, c := range spec.Invariants {
+		env := x.contractEnv(fr, st, fr.entry, nil)
+		x.addFact(x.evalBool(env, c.Expr))
+	}
+	out = append(out, x.facts[nf:]...)
+	return out
 }
 
 // runRegionFromHeader executes loop L's body with header state s (phis already evaluated).
@@ -987,7 +1045,9 @@ func (x *Exec) finish(fr *Frame) {
 					keys = append(keys, k.Key)
 				}
 				// outside all regions: claimed
-				x.oblige(fr, rs.st, "ensures", fmt.Sprintf("%d", c.Ord), c.Tags, x.tt.Implies(x.tt.Not(x.tt.Or(regions...)), g), c.Text+"  [outside known-finding regions "+strings.Join(keys, ",")+"]")
+				if o := x.oblige(fr, rs.st, "ensures", fmt.Sprintf("%d", c.Ord), c.Tags, x.tt.Implies(x.tt.Not(x.tt.Or(regions...)), g), c.Text+"  [outside known-finding regions "+strings.Join(keys, ",")+"]"); o != nil {
+					o.RetNil = x.retNilTerm(rs.vals)
+				}
 				for i, k := range c.KFs {
 					o := x.obligeNoAssume(fr, rs.st, "ensures-in-region", fmt.Sprintf("%d:%s", c.Ord, k.Key), c.Tags, x.tt.Implies(regions[i], g), c.Text+"  [inside region "+k.Key+": "+k.Text+"]")
 					if o != nil {
@@ -995,7 +1055,9 @@ func (x *Exec) finish(fr *Frame) {
 					}
 				}
 			} else {
-				x.oblige(fr, rs.st, "ensures", fmt.Sprintf("%d", c.Ord), c.Tags, g, c.Text)
+				if o := x.oblige(fr, rs.st, "ensures", fmt.Sprintf("%d", c.Ord), c.Tags, g, c.Text); o != nil {
+					o.RetNil = x.retNilTerm(rs.vals)
+				}
 			}
 		}
 		if con.Effects == "validation" {
@@ -1565,4 +1627,38 @@ func (x *Exec) scopeCut(sn *seenSnap) {
 		x.childrenOf[k] = append([]*Term{}, v...)
 	}
 	x.globals = x.globals[:sn.globals]
+}
+
+
+func (x *Exec) retNilTerm(vals []Value) *Term {
+	if len(vals) != 1 {
+		return nil
+	}
+	t, ok := vals[0].(*Term)
+	if !ok {
+		return nil
+	}
+	switch t.Sort {
+	case "Int":
+		return x.tt.Eq(t, x.tt.IntLit(0))
+	case "Val":
+		return x.tt.Is("vnil", t)
+	}
+	return nil
+}
+
+
+// loopHasEarlyExit: some block other than the header leaves the loop (break / return inside the body).
+func loopHasEarlyExit(L *Loop) bool {
+	for b := range L.Blocks {
+		if b == L.Header {
+			continue
+		}
+		for _, sc := range b.Succs {
+			if !L.Blocks[sc] {
+				return true
+			}
+		}
+	}
+	return false
 }
